@@ -11,21 +11,19 @@
        = upto_stop (snd (serve_pers fuel (app_rsrc a) c (mkPw None [] [] false) h)).
 
    This is FALSE of the model (and of the code: each refutation below was replayed on the real engine).
-   Three classes of divergence, each excluded by a named decidable guard:
+   Two classes of divergence remain, each excluded by a named decidable guard:
 
    * K-C07-first     `c_first c = None`: an entry function runs once per ENGINE (C07_refuted_first).
    * K-C07-longbad   `input_ok_b i`: an input that is over-long AND fails the input pattern.  The long-lived
                      engine (init already done) checks the pattern first and answers (continue, error); a new
                      engine's init calls SetInput first and answers (stop, error) (C07_refuted_longbad).
-   * K-C07-browse    `no_browse_leak_b`: Menu.Reset keeps the browse configuration (next/previous entries
-                     and their availability flags).  A node that sets them, HALTs, and then builds another
-                     paginated page WITHOUT an intervening MOVE / fired INCMP / CROAK shows the entries in the
-                     long-lived engine only (C07_refuted_browse).  The guard says exactly that the browse
-                     configuration with which the request's execution ends does not depend on the one left
-                     over from the previous request (it compares with the run of the same engine whose
-                     leftover configuration was wiped, `scrub`); it holds trivially whenever the menu is
-                     clean at the start of the request (C07_no_leak_when_clean) and, as the example shows,
-                     on ordinary paginated nodes, whose INCMPs replace the menu before anything is rendered.
+
+   A third class, found by this proof, is REPAIRED (K-C07-browse, commit c373f7d): Menu.Reset kept the browse
+   configuration (next/previous entries and their availability flags), so a node that set them, HALTed, and
+   then built another paginated page without moving showed the entries in the long-lived engine only.  With the
+   repair the reset that resumes execution after a HALT erases everything a new engine's page does not have
+   either, the guard `no_browse_leak_b` of the earlier version of this file is gone, and the former refutation
+   witness is the regression example C07_browse_regression.
 
    Two technical guards:
    * `no_browse_err_b`: the render of the request's Flush raised no BrowseError.  After the BrowseError
@@ -42,8 +40,8 @@
    panics are not excluded: they occur on both sides alike and end the comparison):
    C07_step_simulation_partial, C07_first_step_partial, C07_history_simulation_partial, and the
    congruences they rest on: `run`, `vm_render` and `page_render` respect page equivalence (nothing reads
-   the sizer's member table / running total; the menu's browse configuration is the only other
-   unpersisted state that survives a resumption after HALT). *)
+   the sizer's member table / running total, the only unpersisted state that survives a resumption after
+   HALT besides the constant separator, resource and output size). *)
 From Vise Require Import Bytes Errors Consts EngConsts Codec CacheModel StateModel NavModel RenderModel VmModel EngineModel
   EngineProofs BisimProofs.
 Local Open Scope N_scope.
@@ -102,7 +100,7 @@ Proof. exact run_stops_at_halt. Qed.
 
 (* ---- the simulation ------------------------------------------------------------------------------------------- *)
 Theorem C07_step_simulation_partial : forall fuel rs c e p i,
-  c_first c = None -> R c e p -> input_ok_b i = true -> no_browse_leak_b fuel rs c e i = true ->
+  c_first c = None -> R c e p -> input_ok_b i = true ->
   let '(e', rl) := request_long fuel rs c e i in
   let '(p', rp) := request_persisted fuel rs c p i in
   rl = rp /\
@@ -124,10 +122,6 @@ Theorem C07_history_simulation_partial : forall fuel rs c h,
   = upto_stop (snd (serve_pers fuel rs c (mkPw None [] [] false) h)).
 Proof. exact history_simulation_b. Qed.
 
-Theorem C07_no_leak_when_clean : forall fuel rs c e i,
-  scrubp (v_pg (e_v e)) = v_pg (e_v e) -> no_browse_leak_b fuel rs c e i = true.
-Proof. exact no_leak_when_clean. Qed.
-
 (* ---- refutations ------------------------------------------------------------------------------------------------ *)
 Theorem C07_refuted_first :
   exists (a : app) (c : config) (h : list bytes),
@@ -145,18 +139,6 @@ Theorem C07_refuted_longbad :
        <> upto_stop (snd (serve_pers 1000 (app_rsrc a) c (mkPw None [] [] false) h)).
 Proof. exact refuted_longbad. Qed.
 
-Theorem C07_refuted_browse :
-  exists (a : app) (c : config) (h : list bytes),
-    c_first c = None /\ cfg_flags_ok_b c = true /\ forallb input_ok_b h = true
-    /\ c07_guard_b 1000 (app_rsrc a) c (new_engine c None [] []) h = false
-    /\ map r_out (snd (serve_long 1000 (app_rsrc a) c (new_engine c None [] []) h))
-       = [[114; 111; 111; 116]; [114; 111; 111; 116] ++ [10] ++ [49; 49; 58; 110; 120]]
-    /\ map r_out (snd (serve_pers 1000 (app_rsrc a) c (mkPw None [] [] false) h))
-       = [[114; 111; 111; 116]; [114; 111; 111; 116]]
-    /\ upto_stop (snd (serve_long 1000 (app_rsrc a) c (new_engine c None [] []) h))
-       <> upto_stop (snd (serve_pers 1000 (app_rsrc a) c (mkPw None [] [] false) h)).
-Proof. exact refuted_browse. Qed.
-
 (* ---- non-vacuity ---------------------------------------------------------------------------------------------------- *)
 (* a paginated application (sink of three pages, next/previous entries) browsed forward and back, with a
    malformed input, an unknown selector, a descent and an ascent, and a final over-long input: every guard
@@ -167,18 +149,53 @@ Example C07_ex_guards :
   /\ List.length (upto_stop (snd (serve_long 2000 (app_rsrc w_app_pages) w_cfg28 (new_engine w_cfg28 None [] []) w_hist_pages))) = 10%nat
   /\ nth 2 (map r_out (snd (serve_pers 2000 (app_rsrc w_app_pages) w_cfg28 (mkPw None [] [] false) w_hist_pages))) []
      = [114; 32; 115; 101; 118; 101; 110; 10; 101; 105; 103; 104; 116; 10; 50; 50; 58; 112; 114; 118]
-  /\ bro (v_pg (e_v (fst (serve_long 2000 (app_rsrc w_app_pages) w_cfg28 (new_engine w_cfg28 None [] []) [[]; [49; 49]]))))
-     <> bro (P0 w_cfg28).
-Proof. repeat split; try (vm_compute; reflexivity). intros H. vm_compute in H. discriminate. Qed.
+  /\ option_map m_browse (p_menu (v_pg (e_v (fst (serve_long 2000 (app_rsrc w_app_pages) w_cfg28 (new_engine w_cfg28 None [] []) [[]; [49; 49]])))))
+     <> option_map m_browse (p_menu (P0 w_cfg28)).
+Proof.
+  split; [reflexivity|]. split; [vm_compute; reflexivity|]. split; [vm_compute; reflexivity|].
+  split; [vm_compute; reflexivity|]. split; [vm_compute; reflexivity|].
+  intros H. vm_compute in H. discriminate.
+Qed.
 
 (* the relation holds after a request and relates an engine whose page differs from a new engine's *)
 Example C07_ex_step :
   let e := fst (serve_long 2000 (app_rsrc w_app_pages) w_cfg28 (new_engine w_cfg28 None [] []) [[]; [49; 49]]) in
   e_initd e = true /\ e_execd e = true /\ getf (v_st (e_v e)) FLAG_WAIT = true
   /\ v_pg (e_v e) <> P0 w_cfg28
-  /\ input_ok_b [49; 49] = true /\ no_browse_leak_b 2000 (app_rsrc w_app_pages) w_cfg28 e [49; 49] = true
+  /\ input_ok_b [49; 49] = true
   /\ no_browse_err_b 2000 (app_rsrc w_app_pages) w_cfg28 e [49; 49] = true.
-Proof. repeat split; try (vm_compute; reflexivity). intros H. vm_compute in H. discriminate. Qed.
+Proof.
+  cbv zeta. split; [vm_compute; reflexivity|]. split; [vm_compute; reflexivity|]. split; [vm_compute; reflexivity|].
+  split; [intros H; vm_compute in H; discriminate|]. split; [vm_compute; reflexivity|]. vm_compute; reflexivity.
+Qed.
+
+(* regression for the repaired K-C07-browse: "MNEXT nx 11; HALT; LOAD sk 0; MAP sk; HALT", output size 20,
+   history "", "x" — the long-lived engine used to answer "root\n11:nx" *)
+Example C07_browse_regression :
+  c_first w_cfg20 = None /\ cfg_flags_ok_b w_cfg20 = true
+  /\ c07_guard_b 1000 (app_rsrc w_app_leak) w_cfg20 (new_engine w_cfg20 None [] []) [[]; [120]] = true
+  /\ map r_out (snd (serve_long 1000 (app_rsrc w_app_leak) w_cfg20 (new_engine w_cfg20 None [] []) [[]; [120]]))
+     = [[114; 111; 111; 116]; [114; 111; 111; 116]]
+  /\ map r_out (snd (serve_pers 1000 (app_rsrc w_app_leak) w_cfg20 (mkPw None [] [] false) [[]; [120]]))
+     = [[114; 111; 111; 116]; [114; 111; 111; 116]]
+  /\ snd (serve_long 1000 (app_rsrc w_app_leak) w_cfg20 (new_engine w_cfg20 None [] []) [[]; [120]])
+     = snd (serve_pers 1000 (app_rsrc w_app_leak) w_cfg20 (mkPw None [] [] false) [[]; [120]]).
+Proof. exact browse_regression. Qed.
+
+(* the relation itself holds there (so C07_step_simulation_partial applies to a state that is not the initial one) *)
+Example C07_ex_R :
+  R w_cfg28 (fst (serve_long 2000 (app_rsrc w_app_pages) w_cfg28 (new_engine w_cfg28 None [] []) [[]; [49; 49]]))
+            (fst (serve_pers 2000 (app_rsrc w_app_pages) w_cfg28 (mkPw None [] [] false) [[]; [49; 49]])).
+Proof.
+  unfold R, Linv.
+  split; [|split; [vm_compute; reflexivity|split; vm_compute; reflexivity]].
+  split; [vm_compute; reflexivity|]. split; [vm_compute; reflexivity|]. split; [vm_compute; reflexivity|].
+  split; [intros H; vm_compute in H; discriminate|].
+  split; [vm_compute; reflexivity|]. split; [vm_compute; reflexivity|].
+  split; [vm_compute; repeat constructor|].
+  split; [vm_compute; reflexivity|].
+  intros H. vm_compute in H. discriminate.
+Qed.
 
 Print Assumptions C07_restore_is_snapshot.
 Print Assumptions C07_finish_saves_current.
@@ -191,7 +208,5 @@ Print Assumptions C07_cont_means_wait.
 Print Assumptions C07_step_simulation_partial.
 Print Assumptions C07_first_step_partial.
 Print Assumptions C07_history_simulation_partial.
-Print Assumptions C07_no_leak_when_clean.
 Print Assumptions C07_refuted_first.
 Print Assumptions C07_refuted_longbad.
-Print Assumptions C07_refuted_browse.
